@@ -638,6 +638,12 @@ fn catalogue_inner(prop: &str, t: Tier, seed: u64, out: &mut Vec<Entry>) {
                 let c = mk(Size::mv(2, 1, 0), vec![PolySpec::new(1)]);
                 let c2 = c.clone();
                 let mut en = e("hyrax/rows-nv2".into(), t, "evaluations, row blinding scalars", "2 variables".into(), move || c07::hyrax(&c2)); en.funcs = f.clone(); out.push(en);
+                let c = mk(Size::mv(2, 1, 0), vec![PolySpec::new(1).conc(), PolySpec::new(1).conc(), PolySpec::new(1).conc()]);
+                let c2 = c.clone();
+                let mut en = e("hyrax/open-masks-3p".into(), t, "point, challenge, every RNG draw of commit and open", "3 polynomials opened in one call, 2 variables".into(), move || c07::hyrax_open_masks(&c2)); en.funcs = f.clone(); out.push(en);
+                for h in [1usize, 2] {
+                    let mut en = e(format!("kzg10/direct-h{}", h), t, "coefficients, blinding coefficients", format!("KZG10::commit, hiding bound {}", h), move || c07::kzg10_direct(h, seed)); en.funcs = f.clone(); out.push(en);
+                }
             }
         }
         "C08" => {
@@ -752,13 +758,13 @@ fn catalogue_inner(prop: &str, t: Tier, seed: u64, out: &mut Vec<Entry>) {
             let mut en = e("prepared/doublings".into(), t, "the SRS (symbolic)", "first 12 and last 4 of 255 doublings".into(), move || c09::prepared(seed)); en.funcs = f.clone(); out.push(en);
         }
         "C10" => {
-            let f = vec!["MarlinKZG10::check", "Marlin::accumulate_commitments_and_values", "kzg10::KZG10::check", "SonicKZG10::{check,accumulate_elems,check_elems}", "MarlinPST13::check", "InnerProductArgPC::{check,succinct_check}", "SuccinctCheckPolynomial::{evaluate,compute_coeffs}", "HyraxPC::check", "LinearCodePCS::check", "get_indices_from_sponge", "calculate_t"];
+            let f = vec!["MarlinKZG10::check", "Marlin::accumulate_commitments_and_values", "kzg10::KZG10::check", "SonicKZG10::{check,accumulate_elems,check_elems}", "MarlinPST13::check", "InnerProductArgPC::{check,succinct_check}", "SuccinctCheckPolynomial::{evaluate,compute_coeffs}", "HyraxPC::check", "LinearCodePCS::check", "get_indices_from_sponge", "calculate_t", "kzg10::KZG10::batch_check", "MultilinearPC::check"];
             let quick = t == Tier::Quick;
             let symtxt = "polynomial (1-polynomial shapes), point, challenges, blinding, and the replaced component (a fresh symbolic element of its type)";
             let mut add = |id: String, bounds: String, run: Box<dyn Fn() -> Verdict>| {
                 let mut en = e(id, t, symtxt, bounds, move || run());
                 en.funcs = f.clone();
-                if quick { en.lim.wall_s = 30.0; }
+                if quick { en.lim.wall_s = if en.id.starts_with("kzg10/") { 60.0 } else { 30.0 }; }
                 out.push(en);
             };
             let mkc = |sz: Size, polys: Vec<PolySpec>| { let mut c = Cfg::new(sz, polys); c.seed = seed; c.rng_nonzero = true; c };
@@ -807,6 +813,11 @@ fn catalogue_inner(prop: &str, t: Tier, seed: u64, out: &mut Vec<Entry>) {
                 c.sym_points = false;
                 c.sym_ch = false;
                 add(format!("ligero-ml/c{}", which), format!("{:?} concrete polynomial/point, natural challenges", c.sz), Box::new(move || c10::ligero::<LigeroMl>(&c, which, false)));
+            }
+            for which in 0..=9usize {
+                add(format!("kzg10/check-c{}", which), "max_degree 3, 2 coefficients, hiding 1".into(), Box::new(move || c10::kzg10(which, false, seed)));
+                add(format!("kzg10/batch-c{}", which), "max_degree 3, 2 proofs (hiding 1 and none), 2 coefficients".into(), Box::new(move || c10::kzg10(which, true, seed)));
+                add(format!("mlpst/c{}", which), "2 variables".into(), Box::new(move || c10::mlpst(which, seed)));
             }
         }
         "C11" => {
